@@ -511,6 +511,15 @@ pub fn run(tier: Tier) -> i32 {
         cj.push(CliJob { map: map.clone(), rows: rows_big.clone(), m: m.clone(), precision: 6, individuals: false, what: "large-output", odd_unselected: false });
         cj.push(CliJob { map, rows: rows_big, m, precision: 6, individuals: true, what: "large-output", odd_unselected: false });
     }
+    // long streams in which every record is down-sampled: 4 095, 4 096, 4 097 and 9 000 records of
+    // four fully called samples (8 chromosomes) projected to 4 and to 2 x 2 chromosomes (sums kept in
+    // blocks must not depend on how many records make a block)
+    for n_rec in [4095usize, 4096, 4097, 9000] {
+        let called = [Cls::G0, Cls::G1, Cls::G2];
+        let rows_long: Vec<Vec<Cls>> = (0..n_rec).map(|r| (0..4usize).map(|j| called[(r / [1, 3, 9, 27][j] + j) % 3]).collect()).collect();
+        cj.push(CliJob { map: vec![Some(0); 4], rows: rows_long.clone(), m: vec![4], precision: 6, individuals: false, what: "long-stream", odd_unselected: false });
+        cj.push(CliJob { map: vec![Some(0), Some(0), Some(1), Some(1)], rows: rows_long, m: vec![2, 2], precision: 6, individuals: true, what: "long-stream", odd_unselected: false });
+    }
     {
         let sp: Vec<(Vec<String>, Vec<u8>)> = cj
             .iter()
